@@ -49,7 +49,17 @@ def real_hooks():
         pass
 
     def obj(cls, attrs):
-        o = O()
+        # a named repository class: a real instance (constructor bypassed), so that methods resolve
+        real = None
+        if isinstance(cls, str):
+            for modname in ("output.base_data", "output.core", "output.table_data", "output.dialects", "parser", "ddl_parser"):
+                try:
+                    real = getattr(importlib.import_module("simple_ddl_parser." + modname), cls, None)
+                except ImportError:
+                    real = None
+                if real is not None:
+                    break
+        o = real.__new__(real) if isinstance(real, type) else O()
         o.__dict__.update(attrs)
         return o
     return dict(prod=prod, parser=parser, token=token, obj=obj)
@@ -168,16 +178,18 @@ def run_case(C, model, first_gen=None):
         pass
     got_exc = exp_exc = None
     got = exp = None
+    exc_obj = None
     try:
         got = fn(*argsA, **kwA)
     except Exception as e:
+        exc_obj = e
         got_exc = type(e).__name__
         res["exception"] = "%s: %s" % (type(e).__name__, e)
     spec = C.native("spec")
     ok = True
     why = []
     if got_exc is not None:
-        allowed = got_exc in C.raises or any(k.__name__ in C.raises for k in type(e).__mro__)
+        allowed = got_exc in C.raises or any(k.__name__ in C.raises for k in type(exc_obj).__mro__)
         if not allowed:
             ok = False
             why.append("raises %s" % got_exc)
